@@ -775,6 +775,14 @@ def _strategies() -> T.Any:
         flat = m.flat(m.file)
         keys = list(flat) + list(flat) + list(BUILTIN) + [SP + ':' + n for n in PER_SUBPROJECT]
         ks = draw(st.lists(st.sampled_from(keys), unique=True, min_size=lo, max_size=hi))
+        if m.state == 'configured' and m.over and hi > 0 and chance(draw, 1, 3):
+            k0 = draw(st.sampled_from(sorted(m.over)))       # come back to an override that already exists
+            if k0 not in ks:
+                ks.append(k0)
+        elif m.state in ('fresh', 'configured') and hi > 0 and chance(draw, 1, 6):
+            k0 = SP + ':' + draw(st.sampled_from(sorted(PER_SUBPROJECT)))   # put a per-subproject override in place
+            if k0 not in ks:
+                ks.append(k0)
         out = []
         for k in ks:
             d = m.lookup(k, flat)
@@ -788,6 +796,13 @@ def _strategies() -> T.Any:
                     # even though nothing changes at this moment
                     try:
                         v = m.eff(k)
+                    except Exception:
+                        pass
+                elif k.startswith(SP + ':') and k in m.over and chance(draw, 1, 2):
+                    # an existing per-subproject override is set back to exactly the value the global option has: still a
+                    # change of the override (not the "equal to the hidden value with no override" class X_D8)
+                    try:
+                        v = m.eff(k[len(SP) + 1:])
                     except Exception:
                         pass
             out.append([k, R.to_cmdline(v)])
@@ -948,6 +963,28 @@ def _strategies() -> T.Any:
                     d['value'] = nv
                     push({'op': 'edit', 'proj': 'top', 'kind': 'default', 'name': k, 'decl': d})
                     push({'op': 'wipe'})
+        if m.state == 'configured' and chance(draw, 1, 5):
+            # scripted tail 2: a per-subproject override of a built-in option is put in place and later set back, on its
+            # own, to exactly the value the global option has - still "the last value the user gave it"
+            n_ = draw(st.sampled_from(sorted(PER_SUBPROJECT)))
+            k = SP + ':' + n_
+            d = m.lookup(k, m.flat(m.file))
+            try:
+                gv = m.eff(n_)
+            except Exception:
+                gv = None
+            if d is not None and gv is not None:
+                other = None
+                for _try in range(6):
+                    cand = value_for(draw, d)
+                    if cand != gv:
+                        other = cand
+                        break
+                if other is not None:
+                    if m.over.get(k) in (None, gv):
+                        push({'op': 'configure', 'D': [[k, R.to_cmdline(other)]]})
+                    push({'op': 'configure', 'D': [[k, R.to_cmdline(gv)]]})
+                    push({'op': 'introspect'})
         return {'init': init, 'ops': ops, 'strict': True}
 
     return histories()
